@@ -247,6 +247,8 @@ def rule_g(ctx):
 
 
 def run(ctx):
+    from rules.shared_rules import foreign_address_dropped_before_processing
+    foreign_address_dropped_before_processing(ctx, 'f', 'foreign_address_dropped_before_processing')
     from rules.shared_rules import reset_final_size_guarded
     reset_final_size_guarded(ctx, 'f', 'reset_final_size_subtraction_guarded')
     from rules.shared_rules import incoming_slot_route_paired
